@@ -207,3 +207,36 @@ def ignoredDiffKinds (a b : List (Path × Ignored)) : List String :=
   (d.map fun x => x.2.kind).eraseDups
 
 end Martian.Equiv
+
+namespace Martian.Equiv
+open Martian.SortKeys
+
+/-! ## the meaning with EXPLICIT fuel exhaustion
+
+`semCall` is fuel-bounded (`Prog.fuel`); at fuel 0 it is `.cut`.  `semCallO` returns
+`none` exactly when the unfolding would be cut.  `Props.C15.sem_fuel_stable`: when it
+succeeds at a fuel, `semCall` is that meaning at this and every larger fuel, so the
+verdict of the comparison does not depend on the fuel either (`equiv_fuel_stable`). -/
+
+def seqO {α : Type} : List (Option α) → Option (List α)
+  | [] => some []
+  | none :: _ => none
+  | some a :: rest => (seqO rest).map (a :: ·)
+
+def semCallableO (rec : Call → Option Sem) : Callable → Option Sem
+  | .stage s i o =>
+      some (.stage s (sortK (i.map fun p => (p.1, semIn p.2))) (sortK (o.map fun p => (p.1, semOut false p.2))))
+  | .pipeline i o cs r =>
+      (seqO ((keyed cs).map fun p => (rec p.2).map fun s => (p.1, s))).map fun l =>
+        .pipeline (sortK (i.map fun p => (p.1, semIn p.2))) (sortK (o.map fun p => (p.1, semOut true p.2)))
+          (semBinds r) (sortK l)
+
+def semCallO : Nat → Tab → Call → Option Sem
+  | 0, _, _ => none
+  | n + 1, T, c =>
+      (match lookupL c.decId T with
+       | none => some Sem.missing
+       | some x => semCallableO (semCallO n T) x).map fun callee =>
+        .call c.id (semBinds c.binds) c.mods.isLocal c.mods.preflight (c.mods.disabled.map Exp.sem) callee
+
+end Martian.Equiv
